@@ -13,15 +13,18 @@ RULE = ("CBOR: every length 0..300 plus 65534..65537 and 70000, truncations and 
         "8->5 / 5->8 and other widths, out-of-range values; bc32: payload lengths 0..70, every single substitution at "
         "every position of sampled strings; BCUR multi: payload sizes 0..70000 bytes (all CBOR prefix classes), chunk "
         "sizes 1..2000, all permutations and all omissions of the parts for up to 5 parts, wrong y, mixed checksums, "
-        "parts of another payload, every single-character substitution of sampled part strings.")
+        "parts of another payload, every single-character substitution of sampled part strings. String layer: int()/str() on "
+        "hand-made and random ASCII texts incl. the 4300-digit limit, hand-made and mutated header strings (case, all ASCII "
+        "white space incl. 0x1c-0x1f, extra/missing '/', 'of' variants, signs, underscores), every position of small "
+        "messages substituted (ASCII: model vs code; non-ASCII: code only).")
 TRUSTED = ["hashlib (sha256) — a universally quantified function in the theorems",
            "binascii base64 wrapping of BCURSingle/BCURMulti (payloads are byte strings in the model)",
-           "modelled, not verified: the string layer of _parse_bcur_helper (strip, startswith, split('/'), split('of'), "
-           "int()) — the model works on the header fields (form, x, y, checksum, payload); the harness formats the "
-           "fields into the string and parses produced strings back, so this layer is tied by correspondence only",
+           "type checks (`type(x) is not str`, list/tuple) are evaluated on the implementation only (predicate str_types)",
            "math.ceil(len / chunk) is a float division in the code and an integer ceiling in the model "
            "(equal for lengths below 2^53)"]
-ASSUMPTIONS = ["text given to the model is ASCII (str.lower/upper are modelled for ASCII only)",
+ASSUMPTIONS = ["text given to the model is ASCII (str.lower/upper/strip/int() are modelled for code points below 128; non-ASCII "
+               "substitutions are evaluated on the implementation only, predicate part_sub_unicode)",
+               "int() refuses more than 4300 digits (CPython >= 3.11 default sys.get_int_max_str_digits())",
                "payload length < 2^32 (cbor_encode raises OverflowError above; theorem C20_cbor_encode_range)"]
 
 
@@ -82,6 +85,11 @@ def i_multi_parse(parts):
     return a2b_base64(bcur.BCURMulti.parse([fmt(p) for p in parts]).text_b64)
 
 
+def i_parse_helper(text):
+    payload, checksum, x, y = bcur._parse_bcur_helper(text)
+    return [payload, [] if checksum is None else [checksum], x, y]
+
+
 IMPL = {
     "cbor_encode": lambda b: bech32.cbor_encode(b),
     "cbor_decode": lambda b: opt(bech32.cbor_decode(b)),
@@ -95,6 +103,14 @@ IMPL = {
     "single_parse": lambda p: a2b_base64(bcur.BCURSingle.parse(fmt(p)).text_b64),
     "multi_encode": i_multi_encode,
     "multi_parse": i_multi_parse,
+    # ---- the string layer (Model/BcurStr.v): real strings in, real strings out
+    "py_int": lambda t: int(T(t)),
+    "str_int": lambda n: str(n),
+    "parse_helper_str": lambda t: i_parse_helper(T(t)),
+    "single_encode_str": lambda b, uc: bcur.BCURSingle(text_b64=b64(b)).encode(use_checksum=bool(uc)),
+    "multi_encode_str": lambda b, m, an: bcur.BCURMulti(text_b64=b64(b)).encode(max_size_per_chunk=m, animate=bool(an)),
+    "single_parse_str": lambda t: a2b_base64(bcur.BCURSingle.parse(T(t)).text_b64),
+    "multi_parse_str": lambda ts: a2b_base64(bcur.BCURMulti.parse([T(t) for t in ts]).text_b64),
 }
 
 # ---------------------------------------------------------------- references
@@ -305,6 +321,39 @@ def p_part_sub(payload, chunk, idx, pos):
     return None
 
 
+UNI_SUBST = "\u212a\u0130\u017f\xa0\x85\u2003\u0661\u0662\uff11\u00df\u01c5\ufeff\u200b"
+
+
+def p_part_sub_unicode(payload, chunk, idx, pos):
+    """non-ASCII substitutions (KELVIN SIGN lower()s to 'k', Unicode spaces are strip()ped, int() reads Unicode
+    digits): rejected, or the same payload"""
+    parts = _parts(payload, chunk)
+    i = idx % len(parts)
+    s = parts[i]
+    p = pos % len(s)
+    for c in UNI_SUBST:
+        bad = parts[:i] + [s[:p] + c + s[p + 1:]] + parts[i + 1:]
+        r, ok = _try(_parse, bad)
+        if ok and r != payload:
+            return f"part {i + 1} with character {p} replaced by {c!r} is accepted and gives different data"
+    return None
+
+
+def p_str_types(payload, chunk):
+    """anything that is not a str (not a list/tuple of str) is refused"""
+    parts = _parts(payload, chunk)
+    for bad in (parts[0].encode(), None, 5, [parts[0]], bytearray(parts[0].encode())):
+        for f in (bcur._parse_bcur_helper, bcur.BCURSingle.parse):
+            if _try(f, bad)[1]:
+                return f"{f.__name__} accepts a {type(bad).__name__}"
+    for bad in (parts[0], None, {0: parts[0]}, iter(parts), [p.encode() for p in parts], [parts]):
+        if _try(bcur.BCURMulti.parse, bad)[1]:
+            return f"BCURMulti.parse accepts {type(bad).__name__}"
+    if _try(_parse, tuple(parts)) != (payload, True):
+        return "a tuple of the parts is not parsed to the payload"
+    return None
+
+
 # ---------------------------------------------------------------- histories: the same objects / functions used repeatedly
 # One BCURMulti and one BCURSingle object per payload stay alive for a whole session and are asked to encode with
 # different chunk sizes / flags in arbitrary order; BCURMulti.parse / BCURSingle.parse and the module-level codecs
@@ -441,7 +490,8 @@ def p_bcur_session(pool, ops):
 
 PROPS = {"cbor_rt": p_cbor_rt, "convertbits_rt": p_convertbits_rt, "bc32_rt": p_bc32_rt, "bc32_sub": p_bc32_sub,
          "multi_rt": p_multi_rt, "multi_select": p_multi_select, "multi_tamper": p_multi_tamper,
-         "part_sub": p_part_sub, "bcur_session": p_bcur_session}
+         "part_sub": p_part_sub, "bcur_session": p_bcur_session, "part_sub_unicode": p_part_sub_unicode,
+         "str_types": p_str_types}
 
 # ---------------------------------------------------------------- generators
 
@@ -521,6 +571,142 @@ def histories(ctx):
         ctx.label("history/bcur-objects-and-codecs")
         yield ("prop", "bcur_session", bcur_session(ctx))
 
+
+
+WS = "\t\n\x0b\x0c\r\x1c\x1d\x1e\x1f "
+INTS = ["", " ", "0", "00", "-0", "+0", "7", "12", " 12", "12 ", "\t12\n", "\x1c12", "12\x1f", "\x0b12\x0c", "\r12\r", "+12",
+        "-12", "+ 12", " +12 ", "++12", "--1", "+-1", "1_2", "1__2", "_12", "12_", "1_2_3", "+_1", "-_1", "+1_0", "1 2", "1+2",
+        "0x10", "1.0", "1e3", "a", "1a", "\x0012", "12\x00", "12\x7f", "0_0", "007", "-007", "+", "-", "_", "1" * 4300,
+        "1" * 4301, "0" * 4301, "0" * 4300, "+" + "1" * 4300, "-" + "1" * 4301, "1" + "_1" * 4299, "1" + "_1" * 4300,
+        " " * 50 + "1" * 4300 + " " * 50, "9" * 30, "1of2", "o", "/"]
+
+
+def _mutations(r, s, n):
+    """n malformed variants of a part string (ASCII only)"""
+    out = []
+    alphabet = B32 + "QU0123456789" + "/ :-_+bio" + WS + "\x00\x7f"
+    for _ in range(n):
+        k = r.randrange(9)
+        p = r.randrange(len(s)) if s else 0
+        if k == 0:
+            t = s[:p] + r.choice(alphabet) + s[p + 1:]
+        elif k == 1:
+            t = s[:p] + s[p + 1:]
+        elif k == 2:
+            t = s[:p] + r.choice(alphabet) + s[p:]
+        elif k == 3:
+            t = "".join(r.choice(WS) for _ in range(r.randrange(1, 4))) + s + "".join(r.choice(WS) for _ in range(r.randrange(0, 3)))
+        elif k == 4:
+            t = "".join(c.upper() if r.random() < 0.5 else c for c in s)
+        elif k == 5:
+            t = s[:p]
+        elif k == 6:
+            t = s.replace("/", r.choice(["//", "/ ", " /", "", "/q/"]), r.choice([1, 2, 3]))
+        elif k == 7:
+            t = s.replace("of", r.choice(["ofof", "oof", "off", " of ", "o f", "OF", "of+", "of-", "_of", "of0", "fo", "", "of1of"]), 1)
+        else:
+            t = r.choice(WS) + s if r.random() < 0.5 else s + r.choice(WS)
+        out.append(t)
+    return out
+
+
+def string_layer(ctx):
+    """the string layer: real strings through _parse_bcur_helper / BCURSingle.parse / BCURMulti.parse / encode"""
+    r = ctx.rng
+    # ---- int() and str()
+    for t in INTS:
+        ctx.label("str/int-handmade")
+        yield ("corr", "py_int", [t.encode()])
+    for _ in range(ctx.n(300, 6000)):
+        t = "".join(r.choice("0123456789" * 3 + "_+- " + WS + "a/") for _ in range(r.randrange(0, 7)))
+        ctx.label("str/int-random")
+        yield ("corr", "py_int", [t.encode()])
+    for n in list(range(0, 130)) + [10 ** k + d for k in range(2, 25) for d in (-1, 0, 1)] + [-1, -9, -10, -11, -12345, 2 ** 64, -(2 ** 70)]:
+        yield ("corr", "str_int", [n])
+        yield ("corr", "py_int", [str(n).encode()])
+    # ---- header strings
+    hand = ["", "ur:bytes", "ur:bytes/", "ur:bytes//", "ur:bytes///", "ur:bytes////", "ur:byte/q", "ur:bytes/q", "UR:BYTES/Q",
+            " ur:bytes/q ", "\x1cur:bytes/q\x1f", "ur:bytes/q\n", "ur:bytes/ q", "ur:bytes/q q", "ur:bytes//q", "ur:bytes/b",
+            "ur:bytes/1of1//q", "ur:bytes/ 1 of 1 //q", "ur:bytes/1_0of1_1//q", "ur:bytes/+1of+2//", "ur:bytes/2of1//q",
+            "ur:bytes/-1of1//q", "ur:bytes/-2of-1//q", "ur:bytes/0of0//q", "ur:bytes/01of02//q", "ur:bytes/1of//q", "ur:bytes/of1//q",
+            "ur:bytes/of//q", "ur:bytes/1ofof2//q", "ur:bytes/1of2of3//q", "ur:bytes/1oof2//q", "ur:bytes/1o2//q", "ur:bytes/1OF2//q",
+            "ur:bytes/\x1c1of2//q", "ur:bytes/1of2\x1c//q", "ur:bytes/1\tof\n2//q", "ur:bytes/1of2/q/q", "ur:bytes/1of2/" + "q" * 58 + "/q",
+            "ur:bytes/1of2/" + "q" * 57 + "/q", "ur:bytes/1of2/" + "q" * 59 + "/q", "ur:bytes/1of2/" + "q" * 57 + "b/q",
+            "ur:bytes/1of2/" + "Q" * 58 + "/Q", "ur:bytes/" + "q" * 58 + "/q", "ur:bytes/" + "q" * 57 + "/q", "ur:bytes/" + "q" * 58 + "/1",
+            "ur:bytes/" + "1" * 4301 + "of2//q", "ur:bytes/" + "0" * 4300 + "1of2//q", "ur:bytes/" + "0" * 4299 + "1of2//q",
+            "xur:bytes/q", "ur:bytes/q/", "/ur:bytes/q", "ur:bytes/1of1/q", "ur:bytes/1of1"]
+    for t in hand:
+        ctx.label("str/helper-handmade")
+        yield ("corr", "parse_helper_str", [t.encode()])
+        yield ("corr", "single_parse_str", [t.encode()])
+        yield ("corr", "multi_parse_str", [[t.encode()]])
+    sizes = [0, 1, 5, 23, 24, 60, 100, 255, 256] + [r.randrange(0, 400) for _ in range(ctx.n(12, 200))]
+    for n in sizes:
+        payload = ctx.rbytes(n)
+        enc_len = len(ref_bc32(ref_cbor(payload)))
+        chunk = max(1, r.choice([1, 3, 7, 10, 25, 60, 300, enc_len - 1, enc_len, enc_len + 1, r.randrange(1, 400)]))
+        if enc_len // chunk > 150:
+            chunk = max(chunk, enc_len // 20)
+        ctx.label("str/encode")
+        yield ("corr", "multi_encode_str", [payload, chunk, 1])
+        yield ("corr", "multi_encode_str", [payload, chunk, 0])
+        yield ("corr", "multi_encode_str", [payload, r.choice([0, -1, -7, -enc_len, -100000]), r.randrange(2)])
+        for uc in (0, 1):
+            yield ("corr", "single_encode_str", [payload, uc])
+        parts = _parts(payload, chunk)
+        yield ("corr", "multi_parse_str", [[p.encode() for p in parts]])
+        yield ("corr", "multi_parse_str", [[p.upper().encode() for p in parts]])
+        yield ("corr", "multi_parse_str", [[r.choice(WS) + p + r.choice(WS) for p in parts]])
+        single = bcur.BCURSingle(text_b64=b64(payload))
+        forms = [single.encode(use_checksum=False), single.encode(use_checksum=True),
+                 f"ur:bytes/1of1/{single.enc_hash}/{single.encoded}"]
+        for t in forms:
+            yield ("corr", "single_parse_str", [t.encode()])
+            yield ("corr", "parse_helper_str", [t.encode()])
+            yield ("corr", "multi_parse_str", [[t.encode()]])
+            for m in _mutations(r, t, ctx.n(6, 40)):
+                ctx.label("str/single-mutated")
+                yield ("corr", "single_parse_str", [m.encode()])
+                yield ("corr", "parse_helper_str", [m.encode()])
+        # the merged forms a replaced '/' produces
+        yield ("corr", "single_parse_str", [f"ur:bytes/{single.enc_hash}{r.choice(B32)}{single.encoded}".encode()])
+        # one mutated string among the parts
+        for _ in range(ctx.n(10, 60)):
+            i = r.randrange(len(parts))
+            for m in _mutations(r, parts[i], 1):
+                ctx.label("str/multi-mutated")
+                yield ("corr", "parse_helper_str", [m.encode()])
+                yield ("corr", "multi_parse_str", [[(m if k == i else p).encode() for k, p in enumerate(parts)]])
+        if len(parts) > 1:
+            a, b = r.sample(range(len(parts)), 2)
+            sw = list(parts)
+            sw[a], sw[b] = sw[b], sw[a]
+            yield ("corr", "multi_parse_str", [[p.encode() for p in sw]])
+            yield ("corr", "multi_parse_str", [[p.encode() for p in parts[:-1]]])
+            yield ("corr", "multi_parse_str", [[p.encode() for p in parts[1:]]])
+            yield ("corr", "multi_parse_str", [[p.encode() for p in parts + parts[-1:]]])
+        yield ("prop", "str_types", [payload, chunk])
+    # every single ASCII substitution at every position of the first / a later part of small messages (model vs code)
+    for _ in range(ctx.n(2, 12)):
+        payload = ctx.rbytes(r.randrange(1, 40))
+        enc_len = len(ref_bc32(ref_cbor(payload)))
+        chunk = max(1, -(-enc_len // r.choice([1, 2, 3])))
+        parts = _parts(payload, chunk)
+        for i in sorted({0, len(parts) - 1}):
+            s = parts[i]
+            for pos in range(len(s)):
+                for c in r.sample(B32 + "QU019/ :-_+o\t\x1c\x00", 3) + ["/", " "]:
+                    if c == s[pos]:
+                        continue
+                    ctx.label("str/every-position-substitution")
+                    bad = [(s[:pos] + c + s[pos + 1:] if k == i else p).encode() for k, p in enumerate(parts)]
+                    yield ("corr", "multi_parse_str", [bad])
+                yield ("prop", "part_sub_unicode", [payload, chunk, i, pos])
+        single = bcur.BCURSingle(text_b64=b64(payload)).encode(use_checksum=True)
+        for pos in range(len(single)):
+            for c in r.sample(B32 + "QU019/ :-_+o\t\x1c\x00", 2) + ["/", " "]:
+                if c != single[pos]:
+                    yield ("corr", "single_parse_str", [(single[:pos] + c + single[pos + 1:]).encode()])
 
 
 def generate(ctx):
@@ -696,5 +882,7 @@ def generate(ctx):
             for pos in range(len(parts[idx])):
                 ctx.label("part-substitution/header" if pos < parts[idx].rfind("/") else "part-substitution/payload")
                 yield ("prop", "part_sub", [payload, chunk, idx, pos])
+    # ---------------- the string layer (strip / split / int() / f-strings), model vs implementation on real strings
+    yield from string_layer(ctx)
     # ---------------- histories: long-lived BCUR objects, parse / codecs called repeatedly on nearly equal payloads
     yield from histories(ctx)
